@@ -1,5 +1,6 @@
 import Driver.Proto
 import MesonModel.Intro.Model
+import MesonModel.Intro.TestSer
 /-
 driver commands of area `intro` (C15)
 
@@ -25,6 +26,15 @@ text) and the list holding one empty string differ.
   getenv <ops>                          -> OK|k:v&k:v
   expand <dirs>|<prefix>|<dest>         -> OK|<path>  /  NONE
   destused <prefix>|<rec>               -> OK|<path>
+  testser <builddir>|<darwin>|<mode d/s>|<objs>|<cells>|<targets>|<tests>
+                                        obj = envvars cell;unset cell   cell = op&op;names   op = m:name:vals:sep
+                                        target = obj;id;kind(e/h/a/b/c/i);dir;filename;outputs;kind:dir&…
+                                        test = name;suite;exe;args;depends;env ref;par;timeout;workdir;protocol;priority
+                                        exe / arg item (args `&`-separated) = s:<str> | f:<str> | t:<index> | x:<cmd> | o:   (prefix `l` = LocalProgram)
+                                        depends = target indices `&`-separated; workdir = n | <str>
+        -> OK|<pickled of call 1>|<get_test_list of call 2 on the heap call 1 left>   /  ERR:<exception>
+           pickled = name;fname;args;ops;unset;workdir;timeout;suite;par;prio;proto;depends;extra
+           intro   = name;cmd;k:v&…;workdir;timeout;suite;par;prio;proto;depends;extra
 -/
 namespace Driver.Intro
 open MesonModel.Intro Driver
@@ -131,8 +141,111 @@ def zipBits : List IntroTest → List SerTest → List Bool
 
 def encS (s : Str) : String := if s.isEmpty then "s" else "s " ++ encodeStr s
 
+/-! #### testser -/
+section testser
+open MesonModel.Intro.TestSer
+
+def encL (l : List Str) : String := ",".intercalate (l.map encS)
+
+def decTgtKind : String → Option TgtKind
+  | "e" => some .executable | "h" => some .sharedLibrary | "a" => some .staticLibrary | "b" => some .otherBuild
+  | "c" => some .custom | "i" => some .index | _ => none
+
+def decLinkDep (r : String) : Option (TgtKind × Str) :=
+  match r.splitOn ":" with
+  | [k, d] => (decTgtKind k).map (fun kk => (kk, decodeStr d))
+  | _ => none
+
+def decTgt (r : String) : Option Tgt :=
+  match comps r with
+  | [o, i, k, d, f, outs, l] =>
+    match o.trimAscii.toString.toNat?, decTgtKind k, (subs l).mapM decLinkDep with
+    | some oo, some kk, some ls =>
+      some { obj := oo, id := decodeStr i, kind := kk, dir := decodeStr d, filename := decodeStr f, outputs := decodeStrList outs, linkDeps := ls }
+    | _, _, _ => none
+  | _ => none
+
+def decObjBase (tgts : List Tgt) (k payload : String) : Option Obj :=
+  match k with
+  | "s" => some (.str (decodeStr payload))
+  | "f" => some (.file (decodeStr payload))
+  | "t" => (payload.trimAscii.toString.toNat?).bind (fun i => tgts[i]?.map Obj.target)
+  | "x" => some (.external (decodeStrList payload))
+  | "o" => some .other
+  | _ => none
+
+def decObj (tgts : List Tgt) (r : String) : Option Obj :=
+  match r.splitOn ":" with
+  | [k, payload] =>
+    if k.startsWith "l" then (decObjBase tgts (k.drop 1).toString payload).map Obj.localProg else decObjBase tgts k payload
+  | _ => none
+
+def decTest (tgts : List Tgt) (r : String) : Option Test :=
+  match comps r with
+  | [n, su, e, a, d, env, par, to, w, proto, prio] =>
+    match decObj tgts e, (subs a).mapM (decObj tgts), (subs d).mapM (fun i => (i.trimAscii.toString.toNat?).bind (fun k => tgts[k]?)),
+          env.trimAscii.toString.toNat?, prio.trimAscii.toString.toInt? with
+    | some exe, some args, some deps, some envr, some p =>
+      some { name := decodeStr n, suite := decodeStrList su, exe := exe, args := args, depends := deps, env := envr,
+             isParallel := decodeStr par, timeout := decodeStr to, workdir := if w == "n" then none else some (decodeStr w),
+             protocol := decodeStr proto, priority := p }
+    | _, _, _, _, _ => none
+  | _ => none
+
+def decCell (r : String) : Option (List EnvOp × List Str) :=
+  match comps r with
+  | [o, u] => ((subs o).mapM decOp).map (fun ops => (ops, decodeStrList u))
+  | _ => none
+
+def decEnvObj (r : String) : Option EnvObj :=
+  match comps r with
+  | [a, b] =>
+    match a.trimAscii.toString.toNat?, b.trimAscii.toString.toNat? with
+    | some x, some y => some ⟨x, y⟩
+    | _, _ => none
+  | _ => none
+
+def mkHeap (objs : List EnvObj) (cells : List (List EnvOp × List Str)) : Heap :=
+  { nObjs := objs.length, nCells := cells.length, obj := fun i => objs.getD i ⟨0, 0⟩,
+    ops := fun i => (cells.getD i ([], [])).1, uns := fun i => (cells.getD i ([], [])).2 }
+
+def encMethod : EnvMethod → String
+  | .set => "set" | .append => "append" | .prepend => "prepend"
+
+def encOp (o : EnvOp) : String := s!"{encMethod o.method}:{encS o.name}:{encL o.values}:{encS o.sep}"
+
+def encPickled (p : SerTest × List Str) : String :=
+  let t := p.1
+  ";".intercalate [encS t.name, encL t.fname, encL t.cmdArgs, "&".intercalate (t.env.map encOp), encL p.2, encS t.workdir,
+    encS t.timeout, encL t.suite, encS t.isParallel, encS t.priority, encS t.protocol, encL t.depends, encL t.extraPaths]
+
+def encIntro (t : IntroTest) : String :=
+  ";".intercalate [encS t.name, encL t.cmd, "&".intercalate (t.env.map (fun kv => encS kv.1 ++ ":" ++ encS kv.2)), encS t.workdir,
+    encS t.timeout, encL t.suite, encS t.isParallel, encS t.priority, encS t.protocol, encL t.depends, encL t.extraPaths]
+
+def errName : Err → String
+  | .prependToUnset => "prepend-to-unset" | .badObject => "bad-object" | .badExe => "bad-exe"
+  | .emptyCommand => "empty-command" | .noOutput => "no-output"
+
+def handleTestSer (fs : List String) : String :=
+  match fs with
+  | [bd, dw, mode, objs, cells, tgts, tests] =>
+    match (recs objs).mapM decEnvObj, (recs cells).mapM decCell, (recs tgts).mapM decTgt with
+    | some os, some cs, some ts =>
+      match (recs tests).mapM (decTest ts) with
+      | some tt =>
+        match configure (if mode == "s" then .shallow else .deep) (decodeStr bd) (dw == "1") tt (mkHeap os cs) with
+        | .ok (p, i) => s!"OK|{"/".intercalate (p.map encPickled)}|{"/".intercalate (i.map encIntro)}"
+        | .error e => "ERR:" ++ errName e
+      | none => "bad-op"
+    | _, _, _ => "bad-op"
+  | _ => "bad-op"
+
+end testser
+
 def handle (cmd : String) (fs : List String) : String :=
   match cmd, fs with
+  | "testser", fs => handleTestSer fs
   | "targets", [t, e] =>
     match (recs t).mapM decTarget, (recs e).mapM decEdge with
     | some ts, some es =>
